@@ -2,7 +2,8 @@
 
 PROP = {'modules': ['AmVerif.Props.C03'],
  'engines': [{'name': 'load', 'quick': 45, 'thorough': 1500},
-             {'name': 'src', 'tag': 'src-truncated', 'first': 201, 'quick': 1, 'thorough': 400, 'classes': ['truncated-member-read-as-prefix']}],
+             {'name': 'src', 'tag': 'src-small', 'first': 30, 'quick': 2, 'thorough': 170, 'classes': ['source-view-mismatch', 'listed-entry-unreadable']},
+             {'name': 'src', 'tag': 'src-truncated', 'first': 201, 'quick': 12, 'thorough': 400, 'classes': ['truncated-member-read-as-prefix', 'source-view-mismatch', 'listed-entry-unreadable', 'short-read-zero-filled']}],
  'rule': 'cases 0-11 enumerate, for each of the 12 asset types M<e,d> (6 extension lists incl. [] and [""], default_value present or not), EVERY '
          'assignment of {absent, unreadable(kind), undecodable, ok} to the declared extensions, each followed by contains / get_cached / repair / '
          'retry; later cases: random blocks with odd ids (root, nested, unicode, spaces), compounds nested 1-4 deep over failing assets (error '
